@@ -263,7 +263,7 @@ def check_C07(c):
                                    (["Cmp"], "modes-cmp", "ordered,bool,complex128", "ident,signed,nonfinite"),
                                    (["Unary"], "modes-unary", "numeric,string", "ident,signed,nonfinite")):
         k = elem_consts(q, kinds, laya=lay, layb=("C", "T", "Col") if q else lay, modes=ALLMODES,
-                        layd=("C", "Row", "Col") if q else ("C", "Row", "Col", "T"), mismatch=False,
+                        layd=("C", "Row", "Col", "T"), mismatch=False,
                         MaxRank=2 if q else 3, MaxDim=3 if q else 3, HiRank=3)
         cases = c.tlc("MC_elem", name, k, ELEM_INV)
         if q and name == "modes-cmp":
